@@ -63,11 +63,22 @@ RoundTrip(fmt) ==
 \* via = "tree": to_tree(virtual, sensitive_mask); otherwise the document written by
 \* dumps(via, virtual, sensitive_mask), decoded again with that format
 Vias == {"tree"} \cup Formats
+\* a one-character mask is repeated len(str(value)) times: for a sensitive composite value (a
+\* list of configurations) that length is the length of a Python repr, which is not modelled
+RECURSIVE HasSensitiveComposite(_, _)
+HasSensitiveComposite(Sx, c) ==
+    \E i \in DOMAIN Sx.fields :
+        LET k == Sx.fields[i][1]  f == Sx.fields[i][2] IN
+        /\ f.kind # "virtual" /\ k \in DOMAIN c.vals
+        /\ \/ IsCfg(c.vals[k]) /\ HasSensitiveComposite(f, c.vals[k])
+           \/ ~IsSchema(f) /\ f.sensitive /\ c.vals[k].t \in {"list", "dict"} /\ Truthy(c.vals[k])
 Render(virtual, mask, via) ==
-    LET tree == ToTree(S, cfg, virtual, mask) IN
+    LET tree == ToTree(S, cfg, virtual, mask)
+        unpredictable == mask.m # "none" /\ Len(mask.s) = 1 /\ HasSensitiveComposite(S, cfg) IN
     /\ UNCHANGED cfg
     /\ ev' = [op |-> "Render", virtual |-> virtual, mask |-> mask, via |-> via, tree |-> tree,
-              out |-> IF via = "tree" \/ InFormatDomain(via, tree) THEN "ok" ELSE "Unmodelled"]
+              out |-> IF unpredictable THEN "Unmodelled"
+                      ELSE IF via = "tree" \/ InFormatDomain(via, tree) THEN "ok" ELSE "Unmodelled"]
 
 Tick == steps < MaxDepth /\ steps' = steps + 1
 Next ==
